@@ -487,6 +487,44 @@ pub fn run(tier: &str) -> i32 {
         }
     });
     drop(stm);
+    // requests of different clients on ONE database, served concurrently by the HTTP workers: when the burst is over the
+    // connection count of the database is back where it was
+    let mut shared_bursts = 0u64;
+    {
+        let mut adm = crate::common::session::Session::new();
+        adm.call(&live.dbs, "auth admin pwd");
+        adm.call(&live.dbs, "create-db hshared tok");
+        adm.call(&live.dbs, "use-db hshared tok");
+        adm.call(&live.dbs, "set k v");
+        adm.disconnect(&live.dbs);
+        let bursts = if thorough { 2000 } else { 150 };
+        for b in 0..bursts {
+            let barrier = std::sync::Barrier::new(8);
+            let bad = std::sync::Mutex::new(vec![]);
+            std::thread::scope(|sc| {
+                for t in 0..8 {
+                    let (live, barrier, bad) = (&live, &barrier, &bad);
+                    sc.spawn(move || {
+                        barrier.wait();
+                        match http_post(&live.http, b"use-db hshared tok;get k", Duration::from_secs(20)) {
+                            Ok(r) if r == "empty;value v\n" => {}
+                            other => bad.lock().unwrap().push(format!("request {}: {:?}", t, other)),
+                        }
+                    });
+                }
+            });
+            shared_bursts += 1;
+            let bad = bad.into_inner().unwrap();
+            if !bad.is_empty() {
+                v.report(json!({"check": "http", "problem": "entry-is-not-the-commands-own-result", "context": "concurrent-requests-on-one-database"}), json!({"burst": b, "replies": bad}));
+                break;
+            }
+            if let Some(r) = wait_released(&live, "hshared", &[], 0) {
+                v.report(json!({"check": "http", "problem": r, "context": "concurrent-requests-on-one-database"}), json!({"burst": b, "requests": 8}));
+                break;
+            }
+        }
+    }
     // the same bodies as one WebSocket frame: executed once each, in order (final state = model)
     let mut ws_frames = 0u64;
     {
@@ -543,6 +581,7 @@ pub fn run(tier: &str) -> i32 {
     ev.samples = st.samples.clone();
     ev.set("http_bodies", json!(st.bodies));
     ev.set("commands", json!(st.commands));
+    ev.set("bursts_of_8_concurrent_requests_on_one_database", json!(shared_bursts));
     ev.set("release_checks_after_request", json!(st.release_checks));
     ev.set("ws_frames", json!(ws_frames));
     ev.set("known_findings_seen", json!(v.known_seen()));
